@@ -82,6 +82,10 @@ NEEDS = {
  "c20-read_line-pops-lone-trailing-cr": "predict: an unterminated last input line that ends in CR (stream ends with byte 0x0D)",
  "c20-evaluate-stale-last-word-tags": "evaluate --metric word: a reference line shorter than some earlier line whose last-word tag comparison has the other outcome (tag error on the long line's last word, or tagged long line then untagged short line)",
  "c20-evaluate-fill_tags-before-wsconst-streaming": "evaluate --metric word --predict-tags --wsconst X: the filter merges two predicted words and the merged word's tags differ from its last piece's",
+ "c07-read-magic-fill_buf-single-read": "Model::read from a healthy reader whose first read() returns fewer than 25 bytes (header checked through a single fill_buf)",
+ "c17-bias-only-if-header-flag": "a KyTea file whose word-segmentation model header has the bias flag byte 0 while biases[0] of the feature lookup is non-zero",
+ "c20-predict-repeat-fast-path-normalised-compare": "predict without --no-norm: two consecutive lines that differ as raw strings but normalise to the same text",
+ "c08-lazy-token-length-bitset-nonzero-means-built": "a tagging predictor on which no fill_tags has completed, two threads in fill_tags at once, tagged tokens of at least two different byte lengths",
 }
 res = {}
 p = "/verif/seeded/results.tsv"
